@@ -2,7 +2,7 @@
 From Coq Require Import List Bool ZArith Lia.
 Import ListNotations.
 From Rosed Require Import Base.Res Base.ListX Base.Utf8 Gem.Segment Gem.GString Model.Table Model.Options Model.Editor Model.Ops
-     Check.Common Proofs.Utf8P Proofs.C04P Proofs.C09P.
+     Check.Common Proofs.Utf8P Proofs.C04P Proofs.C09P Proofs.SegmentP Proofs.C09Q Inst.GoRt gen.GemEdit Inst.GoEdit.
 Open Scope Z_scope.
 
 (* For every valid UTF-8 text (the encoding of scalar values rs), every classifier and
@@ -28,3 +28,25 @@ Theorem C09_overtype : forall (C : Classifier) (U : Upper) rs o ref p x, scalars
   Ok (Ed (encode (concat (firstn (Z.to_nat p') cl)) ++ encode (decode x) ++ encode (concat (skipn (Z.to_nat stop) cl))) o ref).
 Proof. intros C U. exact overtype_spec. Qed.
 Print Assumptions C09_overtype.
+
+(* deleting what was just inserted restores the text: for every text, position and inserted text
+   that does not merge with its neighbours (the seam condition of the segmentation - without it
+   the inserted text is not a whole number of clusters of the result: a combining mark inserted
+   after a base letter becomes part of that letter's cluster) *)
+Theorem C09_insert_delete_roundtrip : forall (C : Classifier) (U : Upper) rs o ref p x, scalars rs -> scalars x ->
+  let cl := clusters rs in let p' := norm1 (zlen cl) p in
+  let a := concat (firstn (Z.to_nat p') cl) in let b := concat (skipn (Z.to_nat p') cl) in
+  seam_ok a x -> seam_ok (a ++ x) b ->
+  exists e1, insert p (encode x) (Ed (encode rs) o ref) = Ok e1 /\
+             delete p' (p' + glen x) e1 = Ok (Ed (encode rs) o ref).
+Proof. intros C U. exact insert_delete_roundtrip. Qed.
+Print Assumptions C09_insert_delete_roundtrip.
+
+(* Insert, Delete and Overtype as they are in operations.go now - translated statement by
+   statement on every run (gen/GemFuncs.v), every selection, byte slice and dereference that can
+   panic bound in Go's evaluation order - are the model's operations, for every Editor, position
+   and text: the three theorems above are about the code as it is written *)
+Theorem C09_operations_are_the_source : forall (C : Classifier) (U : Upper) e p q text,
+  go_Insert e p text = insert p text e /\ go_Delete e p q = delete p q e /\ go_Overtype e p text = overtype p text e.
+Proof. intros C U e p q text. exact (conj (go_insert_eq e p text) (conj (go_delete_eq e p q) (go_overtype_eq e p text))). Qed.
+Print Assumptions C09_operations_are_the_source.
